@@ -1283,8 +1283,8 @@ namespace bluetoe {
                 : output_( output )
                 , end_( end )
                 , index_( details::handle_index_mapping< Server >::first_index_by_handle( starting_index ) )
-                , starting_index_( details::handle_index_mapping< Server >::first_index_by_handle( starting_handle ) )
-                , ending_index_( ending_handle )
+                , starting_handle_( starting_handle )
+                , ending_handle_( ending_handle )
                 , stoped_( false )
                 , first_( true )
                 , is_128bit_uuid_( true )
@@ -1296,9 +1296,12 @@ namespace bluetoe {
             template< typename Service >
             void each()
             {
+                const std::uint16_t service_handle = details::handle_index_mapping< Server >::handle_by_index( index_ );
+
+                // only primary services, with the service declaration beeing within the requested range
                 if ( !stoped_
-                    && ( starting_index_ != details::invalid_attribute_index && starting_index_ <= index_ )
-                    && ( index_ <= ending_index_ || ending_index_ == details::invalid_attribute_index ) )
+                    && starting_handle_ <= service_handle && service_handle <= ending_handle_
+                    && Server::attribute_at( index_ ).uuid == bits( details::gatt_uuids::primary_service ) )
                 {
                     if ( first_ )
                     {
@@ -1323,8 +1326,8 @@ namespace bluetoe {
                   std::uint8_t*&  output_;
                   std::uint8_t*   end_;
                   std::size_t     index_;
-            const std::size_t     starting_index_;
-            const std::size_t     ending_index_;
+            const std::uint16_t   starting_handle_;
+            const std::uint16_t   ending_handle_;
                   bool            stoped_;
                   bool            first_;
                   bool            is_128bit_uuid_;
@@ -1569,31 +1572,28 @@ namespace bluetoe {
         struct services_by_group
         {
             services_by_group( std::uint16_t starting_handle, std::uint16_t ending_handle, Iterator& iterator, const Filter& filter, bool& found )
-                : starting_index_( details::handle_index_mapping< Server >::first_index_by_handle( starting_handle ) )
-                , ending_index_( details::handle_index_mapping< Server >::first_index_by_handle( ending_handle ) )
+                : starting_handle_( starting_handle )
+                , ending_handle_( ending_handle )
                 , index_( 0 )
                 , iterator_( iterator )
                 , filter_( filter )
                 , found_( found )
             {
-                // if the ending_handle does not point to a specific handle, the last attribute befor that is ment.
-                if ( ending_index_ != details::invalid_attribute_index && details::handle_index_mapping< Server >::handle_by_index( ending_index_ ) != ending_handle )
-                {
-                    --ending_index_;
-                }
             }
 
             template< typename Service >
             void each()
             {
-                if ( ( starting_index_ != details::invalid_attribute_index && starting_index_ <= index_ )
-                    && ( index_ <= ending_index_ || ending_index_ == details::invalid_attribute_index ) )
+                using mapping = details::handle_index_mapping< Server >;
+
+                const std::uint16_t service_handle = mapping::handle_by_index( index_ );
+
+                if ( starting_handle_ <= service_handle && service_handle <= ending_handle_ )
                 {
                     const details::attribute& attr = Server::attribute_at( index_ );
 
-                    using mapping = details::handle_index_mapping< Server >;
-
-                    if ( filter_( index_, attr ) )
+                    // only primary services are grouped by this
+                    if ( attr.uuid == bits( details::gatt_uuids::primary_service ) && filter_( index_, attr ) )
                     {
                         found_ = iterator_.template operator()< Service >(
                             mapping::handle_by_index( index_ ),
@@ -1605,8 +1605,8 @@ namespace bluetoe {
                 index_ += Service::number_of_attributes;
             }
 
-            std::size_t     starting_index_;
-            std::size_t     ending_index_;
+            std::uint16_t   starting_handle_;
+            std::uint16_t   ending_handle_;
             std::size_t     index_;
             Iterator&       iterator_;
             const Filter&   filter_;
